@@ -7,7 +7,7 @@
    OUTSIDE the model: float32/float64 rounding and the accuracy of NumPy's exp/log; these are sampled by the
    mpmath oracle of checks/kernels_vector.py, not proved.                                                     *)
 From Coq Require Import Reals Arith List.
-From SG Require Import Analysis.Vector Gen.GenVecKernels Proofs.VecKernelProofs Proofs.VecKernelProofsLossFwd.
+From SG Require Import Analysis.Vector Gen.GenVecKernels Proofs.VecKernelProofs Proofs.VecKernelProofsLossFwd Proofs.VecKernelProofsStability.
 Open Scope R_scope.
 
 Theorem softmax_exp_args_nonpos : forall n x, (1 <= n)%nat ->
